@@ -9,7 +9,7 @@ EXPLANATION = (
     "and identity, associativity, pose+point = M(p)[point;1], p [+] delta = p + Pose(delta) with rotational part "
     "(delta_v, +sqrt(1-|delta_v|^2)), and += equals +."
 )
-BOUNDS = "4 pose types; all operands symbolic (3 poses + 1 point + 1 increment); both branches of the SE(3) boxplus norm test"
+BOUNDS = "4 pose types; all operands symbolic (3 poses + 1 point + 1 increment); both branches of the SE(3) boxplus norm test; laws re-proved after in-place edits of a used pose object; results are values (no aliasing between results, results as operands); integer-dtype raw operands (4 constant points / increments)"
 OUTSIDE = "PoseSE2.from_matrix (atan2 is transcendental), rounding; SE(3) increments with |delta_v|>1 are checked only for 'rotation unchanged' as coded"
 ASSUMPTIONS = ["unit quaternions", "cos/sin addition formulas, cos^2+sin^2=1", "sqrt contract r>=0, r^2=arg", "a % m = a - m k with integer k and 0<=result<m"]
 
